@@ -115,7 +115,19 @@ impl PartialOrd for Numeric {
                 other => other,
             }
         } else if let Some(scaled) = other.as_unitset(&self.unit) {
-            self.value.partial_cmp(&scaled)
+            use std::cmp::Ordering::Equal;
+            let result = self.value.partial_cmp(&scaled);
+            // Rounding may differ with the direction of the conversion;
+            // don't let equality depend on which operand is converted.
+            if result != Some(Equal)
+                && self
+                    .as_unitset(&other.unit)
+                    .is_some_and(|scaled| scaled == other.value)
+            {
+                Some(Equal)
+            } else {
+                result
+            }
         } else {
             None
         }
